@@ -520,6 +520,33 @@ pub fn run_session(case: &Session, loc: &mut Local) -> Result<(), String> {
             return fail(&u, format!("'{}' answers '{}' on '{}' but is not a legal move there", b, g.text, g.pos.fen()));
         }
     }
+    // every `info pv` line is a legal line of the position its search was started on (the lines of a
+    // search come before its bestmove, the next search's after it)
+    let mut answered = 0usize;
+    let mut pv_lines = 0usize;
+    for l in lines.iter() {
+        if l.starts_with("bestmove") {
+            answered += 1;
+        } else if let Some(pv) = l.strip_prefix("info pv") {
+            let Some(g) = expecting.get(answered) else {
+                return fail(&u, format!("an 'info pv' line was printed although no go is waiting for an answer: '{}'", l.chars().take(120).collect::<String>()));
+            };
+            let mut p = g.pos.clone();
+            for (k, t) in pv.split(' ').filter(|t| !t.is_empty()).enumerate() {
+                let legal = p.legal();
+                match legal.iter().find(|(m, _)| m.lan() == t) {
+                    Some((_, n)) => p = n.clone(),
+                    None => {
+                        return fail(&u, format!("'info pv' of '{}' on '{}': token {} ('{}') is not a legal move in coordinate notation at that point of the line '{}'", g.text, g.pos.fen(), k + 1, t.chars().take(20).collect::<String>(), pv.chars().take(160).collect::<String>()));
+                    }
+                }
+            }
+            pv_lines += 1;
+        }
+    }
+    if pv_lines > 0 {
+        loc.class("info_pv_lines_checked");
+    }
     let readyok = lines.iter().filter(|l| *l == "readyok").count();
     if readyok != isready_sent {
         return fail(&u, format!("{} isready commands but {} readyok lines", isready_sent, readyok));
@@ -800,7 +827,8 @@ pub fn plan(ctx: &Ctx) -> Plan {
                rules oracle): uci -> id name, id author, uciok in order; every isready -> exactly one readyok, also while a \
                search runs; the i-th bestmove line is a legal move (coordinates + lower-case promotion letter) of the \
                position current at the i-th go that had a legal move, exactly one each, none without a go; the bestmove of \
-               an earlier go precedes the readyok of a barrier placed after the next stop/go/position/ucinewgame; .state \
+               an earlier go precedes the readyok of a barrier placed after the next stop/go/position/ucinewgame; every 'info pv' \
+               line is a legal line, in coordinate notation, of the position its search was started on; .state \
                prints the FEN chess rules define; quit / end of input -> exit status 0. Waits of 60 s are watchdogs on \
                silence (typical latency < 1 s; a process that keeps printing is never timed out). Second part (isready_during_search): on quiet non-book positions a go with at least 1.5 s to \
                run (movetime, depth 30 or bare go) is followed back to back by 1-3 isready and \
